@@ -51,6 +51,7 @@ type L2Outcome struct {
 	Clears          int
 	Roles           []string
 	PrefilterMisses bool `json:"prefilter_misses_match,omitempty"` // see HOutcome
+	AccelOverDead   bool `json:"accel_over_dead,omitempty"`        // the failing call's reused cache holds an accelerated state with a dead transition
 }
 
 // SearchFirstAt is left out: no code path of meta or coregex calls it (the first L2 batch
@@ -446,6 +447,9 @@ func runL2(sc *L2Scenario) *L2Outcome {
 		out.Class = "result"
 		if v := out.Violations[0]; v.Step < len(sc.Steps) && sc.Steps[v.Step].H < len(hb) {
 			out.PrefilterMisses = prefilterMissesMatch(sc.Pattern, sc.Knobs, hb[sc.Steps[v.Step].H])
+			if c := aged[sc.Steps[v.Step].Role]; c != nil && c.VerifAccelOverDead() > 0 {
+				out.AccelOverDead = true
+			}
 		}
 	}
 	return out
